@@ -56,6 +56,7 @@ class Gen:
         self.no_shadow = set()
         self._pat_used = set()
         self._shadow_p = 0.12
+        self.in_index = 0
         self.no_assign = []  # variables that are being assigned by an enclosing statement
 
     # ---------------------------------------------------------------- helpers
@@ -232,8 +233,12 @@ class Gen:
             return Lit(USIZE, self.rng.randrange(n), suffix=self.chance(0.5))
         if r < 0.6:
             return Lit(USIZE, n + self.rng.randint(0, 1))  # statically out of bounds
-        return self.expr(USIZE, min(d - 1, 1)) if USIZE in self.cfg.int_types or self.chance(0.3) else \
-            Cast(self.expr(self.pick([t for t in self.cfg.int_types if not t.signed] or [U8]), min(d - 1, 1)), USIZE)
+        self.in_index += 1
+        try:
+            return self.expr(USIZE, min(d - 1, 1)) if USIZE in self.cfg.int_types or self.chance(0.3) else \
+                Cast(self.expr(self.pick([t for t in self.cfg.int_types if not t.signed] or [U8]), min(d - 1, 1)), USIZE)
+        finally:
+            self.in_index -= 1
 
     def expr(self, ty, d):
         self.budget -= 1
@@ -299,8 +304,8 @@ class Gen:
                     lit = Lit(ty, -lit.v if -lit.v <= ty.max else 2)
                 other = self.expr(ty, d - 1)
                 if op == "*" and self.chance(0.5):
-                    return Bin(op, lit, other)
-                return Bin(op, other, lit)
+                    return self.bin(op, lit, other)
+                return self.bin(op, other, lit)
             else:
                 op = self.pick(["+", "-"])
         l, r = self.expr(ty, d - 1), self.expr(ty, d - 1)
@@ -323,10 +328,22 @@ class Gen:
                 l = Lit(ty, -l.v)
             if isinstance(r, Lit) and r.v < -1 and -r.v < ty.bits:
                 r = Lit(ty, -r.v)
+        return self.bin(op, l, r)
+
+    def bin(self, op, l, r):
+        """Bin(op, l, r); a literal operand sometimes loses its type suffix when the other operand is an expression
+        that carries its type itself (variable, cast, access path, call), so that the literal is typed by it"""
+        typed = (Var, Cast, Index, TupGet, Field, Call)
+        # (not as the left-most token of an index expression: the front end reads `a[5 + i]` as a constant index and
+        # reports "Expected ']'" -- a front-end deviation outside the claimed properties, see DESIGN.md section 6)
+        if isinstance(l, Lit) and isinstance(l.ty, TInt) and l.suffix and isinstance(r, typed) and not self.in_index and self.chance(0.3):
+            l = Lit(l.ty, l.v, suffix=False)
+        elif isinstance(r, Lit) and isinstance(r.ty, TInt) and r.suffix and isinstance(l, typed) and self.chance(0.3):
+            r = Lit(r.ty, r.v, suffix=False)
         return Bin(op, l, r)
 
     def e_bitw(self, ty, d):
-        return Bin(self.pick(["&", "|", "^"]), self.expr(ty, d - 1), self.expr(ty, d - 1))
+        return self.bin(self.pick(["&", "|", "^"]), self.expr(ty, d - 1), self.expr(ty, d - 1))
 
     def e_shift(self, ty, d):
         if self.chance(0.6):
@@ -361,7 +378,7 @@ class Gen:
                 l = self.effect_block(l)
             else:
                 r = self.effect_block(r)
-        return Bin(self.pick(list(CMP)), l, r)
+        return self.bin(self.pick(list(CMP)), l, r)
 
     def e_eq(self, ty, d):
         t = self.rand_type(1) if self.chance(0.3) else self.rand_scalar()
